@@ -22,7 +22,7 @@ static void push(vec *v, H3Index h) {
     v->a[v->n++] = h;
 }
 static void sort_unique(vec *v) {
-    qsort(v->a, (size_t)v->n, 8, cmp_u64);
+    if (v->n > 1) qsort(v->a, (size_t)v->n, 8, cmp_u64);
     int64_t m = 0;
     for (int64_t i = 0; i < v->n; i++)
         if (i == 0 || v->a[i] != v->a[i - 1]) v->a[m++] = v->a[i];
